@@ -1180,3 +1180,52 @@ func init() {
 	}
 	intrinsics["(*strings.Builder).Grow"] = inNop
 }
+
+
+// ---- math on concrete operands (the library uses assembly stubs) ----
+
+func mathUnary(name string, f func(float64) float64) {
+	intrinsics["math."+name] = func(g *G, fn *ssa.Function, args []Value) Value {
+		t := g.m.simp(args[0].(*Term))
+		if !t.IsConst() {
+			if name == "Abs" {
+				c := g.m.ctx
+				return c.Ite(c.FLt(t, c.FPConst(0)), c.FNeg(t), t)
+			}
+			g.m.unsupported("math.%s of a symbolic float", name)
+		}
+		return g.m.ctx.FPConst(f(math.Float64frombits(t.Val)))
+	}
+}
+
+func init() {
+	mathUnary("Trunc", math.Trunc)
+	mathUnary("Floor", math.Floor)
+	mathUnary("Ceil", math.Ceil)
+	mathUnary("Round", math.Round)
+	mathUnary("Abs", math.Abs)
+	mathUnary("Sqrt", math.Sqrt)
+	mathUnary("Log10", math.Log10)
+	mathUnary("Log2", math.Log2)
+	intrinsics["math.Float64bits"] = func(g *G, fn *ssa.Function, args []Value) Value {
+		t := g.m.simp(args[0].(*Term))
+		if !t.IsConst() {
+			g.m.unsupported("math.Float64bits of a symbolic float")
+		}
+		return g.m.ctx.BV(64, t.Val)
+	}
+	intrinsics["math.Float64frombits"] = func(g *G, fn *ssa.Function, args []Value) Value {
+		t := g.m.simp(args[0].(*Term))
+		if !t.IsConst() {
+			g.m.unsupported("math.Float64frombits of a symbolic value")
+		}
+		return g.m.ctx.mk(&Term{Op: OConst, Sort: SFP, Val: t.Val})
+	}
+	intrinsics["math.Mod"] = func(g *G, fn *ssa.Function, args []Value) Value {
+		a, b := g.m.simp(args[0].(*Term)), g.m.simp(args[1].(*Term))
+		if !a.IsConst() || !b.IsConst() {
+			g.m.unsupported("math.Mod of symbolic floats")
+		}
+		return g.m.ctx.FPConst(math.Mod(math.Float64frombits(a.Val), math.Float64frombits(b.Val)))
+	}
+}
